@@ -29,4 +29,4 @@ elif cmd == "run":
     text = sys.stdin.read()
     w = wc()
     p = w.run_harness(["run", sub], input_text=text, timeout=600)
-    print("RC", p.returncode); print(p.stdout[-6000:]); print(p.stderr[-6000:])
+    print("RC", p.returncode); print(p.stdout if os.environ.get("FULL") else p.stdout[-6000:]); print(p.stderr[-int(os.environ.get("ERRTAIL", "6000")):])
